@@ -298,8 +298,17 @@ pub fn propagate(g: &Gad, start: &[F], pinned: &[usize], late: bool) -> Option<V
                     Some(xw) if !decided[xw] => change = Some((xw, four * y + digit)),
                     _ => {
                         if !decided[yw] {
-                            // y = (x - digit') / 4 for the digit that keeps the honest one
-                            change = Some((yw, (x - digit) * four_inv));
+                            // y = (x - d) / 4 with the base-4 digit of x as an
+                            // integer (the chain must end at the zero anchor);
+                            // the honest digit when x is not a small integer
+                            let xi = f_int(&x);
+                            if xi.fits(250) {
+                                let d = F::from(xi.0[0] & 3);
+                                change = Some((yw, f_of(xi.shr(2))));
+                                let _ = d;
+                            } else {
+                                change = Some((yw, (x - digit) * four_inv));
+                            }
                         }
                     }
                 }
@@ -347,6 +356,21 @@ pub fn propagation_attack(
         }
     }
     Ok(None)
+}
+
+/// Candidate-seeded propagation: a crafted assignment (role model) that the
+/// evaluator rejects is completed by re-solving derived wires from the ACTUAL
+/// rows (a role model computes helper wires by the honest formulas; a changed
+/// gadget may derive them differently). `pinned` are the gadget's inputs.
+pub fn complete_candidate(g: &Gad, candidate: &[F], pinned: &[usize], claim: impl Fn(&[F]) -> bool) -> Option<Vec<F>> {
+    for late in [true, false] {
+        if let Some(a) = propagate(g, candidate, pinned, late) {
+            if claim(&a) {
+                return Some(a);
+            }
+        }
+    }
+    None
 }
 
 /// Single-wire perturbation + propagation: for `count` witnesses of op `op`
